@@ -1,5 +1,5 @@
 """C04 - every reported location is the exact 1-based line / code-point column."""
-from . import line_rules as lr, matcher_rules as mr, builder_rules as br, error_rules as er
+from . import line_rules as lr, matcher_rules as mr, builder_rules as br, error_rules as er, dialect_rules as dr
 
 META = {
     "level": "other",
@@ -24,3 +24,5 @@ def run(rep):
     lr.rule_tags(rep, "C04.tags")
     br.rule_locations(rep, "C04.items")
     er.rule_error_locations(rep, "C04.err")
+    dr.rule_header(rep, "C04.langerr")
+    br.rule_rect(rep, "C04.raggederr")
